@@ -34,49 +34,57 @@ inductive ROMode where
   | unknown | options | minDepth | depth
   deriving DecidableEq
 
+/-- Result of `parse_root_options` started in `mode`: options (or `none` when no option keyword was
+    recognised), remaining tokens, and the progress facts used by `parse_roots`. -/
+structure RORes (mode : ROMode) (ts : List Lexem) where
+  opts : Option RootOptions
+  rest : List Lexem
+  le : rest.length ≤ ts.length
+  progress : opts.isSome = true → mode = .unknown → rest.length < ts.length
+
+def roFin (mode : ROMode) (o : RootOptions) (ts : List Lexem) : RORes mode ts :=
+  if h : mode = .unknown then ⟨none, ts, Nat.le_refl _, fun a => by simp at a⟩
+  else ⟨some o, ts, Nat.le_refl _, fun _ b => absurd b h⟩
+
+def roGo (mode : ROMode) (o : RootOptions) : (ts : List Lexem) → RORes mode ts
+  | [] => roFin mode o []
+  | .op s :: r =>
+    if s == ofS "rx" then
+      match roGo .options { o with regexp := true } r with
+      | ⟨x, r', h, _⟩ => ⟨x, r', by lenomega, fun _ _ => by lenomega⟩
+    else roFin mode o _
+  | .str s :: r | .raw s :: r =>
+    let continue_ (mode' : ROMode) (o' : RootOptions) : RORes mode (_ :: r) :=
+      match roGo mode' o' r with
+      | ⟨x, r', h, _⟩ => ⟨x, r', by lenomega, fun _ _ => by lenomega⟩
+    if mode = .minDepth then
+      match parseU32? s with
+      | some d => continue_ .options { o with minDepth := d }
+      | none => roFin _ o _
+    else if mode = .depth then
+      match parseU32? s with
+      | some d => continue_ .options { o with maxDepth := d }
+      | none => roFin _ o _
+    else
+      match rootOptKw s with
+      | some .minDepth => continue_ .minDepth o
+      | some .depth => continue_ .depth o
+      | some .arc => continue_ .options { o with archives := true }
+      | some .sym => continue_ .options { o with symlinks := true }
+      | some .git => continue_ .options { o with gitignore := some true }
+      | some .hg => continue_ .options { o with hgignore := some true }
+      | some .dock => continue_ .options { o with dockerignore := some true }
+      | some .nogit => continue_ .options { o with gitignore := some false }
+      | some .nohg => continue_ .options { o with hgignore := some false }
+      | some .nodock => continue_ .options { o with dockerignore := some false }
+      | some .bfs => continue_ .options { o with traversal := .bfs }
+      | some .dfs => continue_ .options { o with traversal := .dfs }
+      | some .regex => continue_ .options { o with regexp := true }
+      | none => roFin _ o _
+  | _ :: _ => roFin mode o _
+
 /-- `parse_root_options`: returns `none` when no option keyword was recognised. -/
-def parseRootOptions (ts : List Lexem) : Option RootOptions × Rest ts :=
-  go .unknown {} ts
-where
-  fin (mode : ROMode) (o : RootOptions) : Option RootOptions :=
-    if mode == .unknown then none else some o
-  go (mode : ROMode) (o : RootOptions) : (ts : List Lexem) → Option RootOptions × Rest ts
-    | [] => (fin mode o, Rest.refl _)
-    | .op s :: r =>
-      if s == ofS "rx" then
-        let (x, r') := go .options { o with regexp := true } r
-        (x, r'.lift (by simp))
-      else (fin mode o, Rest.refl _)
-    | .str s :: r | .raw s :: r =>
-      let continue_ (mode' : ROMode) (o' : RootOptions) : Option RootOptions × Rest (_ :: r) :=
-        let (x, r') := go mode' o' r
-        (x, r'.lift (by simp))
-      match mode with
-      | .unknown | .options =>
-        match rootOptKw s with
-        | some .minDepth => continue_ .minDepth o
-        | some .depth => continue_ .depth o
-        | some .arc => continue_ .options { o with archives := true }
-        | some .sym => continue_ .options { o with symlinks := true }
-        | some .git => continue_ .options { o with gitignore := some true }
-        | some .hg => continue_ .options { o with hgignore := some true }
-        | some .dock => continue_ .options { o with dockerignore := some true }
-        | some .nogit => continue_ .options { o with gitignore := some false }
-        | some .nohg => continue_ .options { o with hgignore := some false }
-        | some .nodock => continue_ .options { o with dockerignore := some false }
-        | some .bfs => continue_ .options { o with traversal := .bfs }
-        | some .dfs => continue_ .options { o with traversal := .dfs }
-        | some .regex => continue_ .options { o with regexp := true }
-        | none => (fin mode o, Rest.refl _)
-      | .minDepth =>
-        match parseU32? s with
-        | some d => continue_ .options { o with minDepth := d }
-        | none => (fin mode o, Rest.refl _)
-      | .depth =>
-        match parseU32? s with
-        | some d => continue_ .options { o with maxDepth := d }
-        | none => (fin mode o, Rest.refl _)
-    | _ :: _ => (fin mode o, Rest.refl _)
+def parseRootOptions (ts : List Lexem) : RORes .unknown ts := roGo .unknown {} ts
 
 /-- One iteration of a token loop: either strict progress with a new loop state, or the final result. -/
 inductive Step (σ α : Type) (ts : List Lexem) where
@@ -126,14 +134,12 @@ def rootsStep (st : RootsSt) : (ts : List Lexem) → Step RootsSt (List Root) ts
       else if isGroup then
         -- `group` without `by` is silently skipped; options start after it
         match parseRootOptions r with
-        | (some o', ⟨r2, h2⟩) => .more { st with o := o' } r2 (by simp; omega)
-        | (none, r2) => .done (.ok (st.roots ++ [⟨st.path, {}⟩])) (r2.lift (by simp))
+        | ⟨some o', r2, h2, _⟩ => .more { st with o := o' } r2 (by lenomega)
+        | ⟨none, r2, h2, _⟩ => .done (.ok (st.roots ++ [⟨st.path, {}⟩])) ⟨r2, by lenomega⟩
       else
         match parseRootOptions (.raw s :: r) with
-        | (some o', ⟨r2, h2⟩) =>
-          if h : r2.length < r.length + 1 then .more { st with o := o' } r2 (by simp; omega)
-          else .done (.error (.hang "parse_roots")) (Rest.refl _)
-        | (none, r2) => .done (.ok (st.roots ++ [⟨st.path, {}⟩])) ⟨r2.1, by have := r2.2; simp at *; omega⟩
+        | ⟨some o', r2, h2, hp⟩ => .more { st with o := o' } r2 (by have := hp rfl rfl; lenomega)
+        | ⟨none, r2, h2, _⟩ => .done (.ok (st.roots ++ [⟨st.path, {}⟩])) ⟨r2, by lenomega⟩
   | _ :: _ => .done (.ok st.push) (Rest.refl _)
 
 /-- `parse_roots`. `unsupported` for `~` expansion (depends on the user database). -/
@@ -149,15 +155,11 @@ def starFields : List Expr :=
    .field false .Modified, .field false .Path]
 
 /-- expression in the select list: errors are swallowed (`if let Ok(Some(field)) = self.parse_expr()`) -/
-def fieldsExprStep (acc : List Expr) (ts : List Lexem) : Step (List Expr) (List Expr) ts :=
+def fieldsExprStep (acc : List Expr) (ts : List Lexem) (hne : ts ≠ []) : Step (List Expr) (List Expr) ts :=
   match parseExpr false ts with
-  | (.ok e, ⟨r2, _⟩) =>
-    if h : r2.length < ts.length then .more (acc ++ [e]) r2 h
-    else .done (.error (.hang "parse_fields")) (Rest.refl _)
-  | (.error (.msg _), ⟨r2, _⟩) =>
-    if h : r2.length < ts.length then .more acc r2 h
-    else .done (.error (.hang "parse_fields")) (Rest.refl _)
-  | (.error e, r2) => .done (.error e) r2
+  | ⟨.ok e, r2, _, hp⟩ => .more (acc ++ [e]) r2 (hp rfl hne)
+  | ⟨.error (.msg _), r2, _, hp⟩ => .more acc r2 (hp rfl hne)
+  | ⟨.error e, r2, h2, _⟩ => .done (.error e) ⟨r2, h2⟩
 
 def fieldsWord (acc : List Expr) (s : Str) (t : Lexem) (r : List Lexem) : Step (List Expr) (List Expr) (t :: r) :=
   if lowerStr s == ofS "select" then .more acc r (by simp)
@@ -166,20 +168,20 @@ def fieldsWord (acc : List Expr) (s : Str) (t : Lexem) (r : List Lexem) : Step (
     let isGroupBy := lowerStr s == ofS "group" && (match r with | .by_ :: _ => true | _ => false)
     if isGroupBy then .done (.ok acc) (Rest.refl _)
     else if isRootOptionKeyword s then .done (.ok acc) (Rest.refl _)
-    else fieldsExprStep acc (t :: r)
+    else fieldsExprStep acc (t :: r) (by simp)
 
 def fieldsStep (acc : List Expr) : (ts : List Lexem) → Step (List Expr) (List Expr) ts
   | [] => .done (.ok acc) (Rest.refl _)
   | .comma :: r => .more acc r (by simp)
-  | .open_ :: r => fieldsExprStep acc (.open_ :: r)
-  | .copen :: r => fieldsExprStep acc (.copen :: r)
+  | .open_ :: r => fieldsExprStep acc (.open_ :: r) (by simp)
+  | .copen :: r => fieldsExprStep acc (.copen :: r) (by simp)
   | .str s :: r => fieldsWord acc s (.str s) r
   | .raw s :: r => fieldsWord acc s (.raw s) r
   | .arith s :: r => fieldsWord acc s (.arith s) r
   | _ :: _ => .done (.ok acc) (Rest.refl _)
 
-/-- `parse_fields`.  The Rust loop has no progress guarantee (D25); the model reports `hang` when an
-    iteration would leave the position unchanged. -/
+/-- `parse_fields`.  Every iteration makes strict progress (by the types of `fieldsStep`), which is
+    what the D25 fix established: before it `fselect /` looped forever here. -/
 def parseFields (ts : List Lexem) : Except PErr (List Expr) × Rest ts :=
   match iterate fieldsStep [] ts with
   | (.ok [], r) => (.error (.msg "Error parsing fields, no selector found"), r)
@@ -190,19 +192,16 @@ def parseWhere (ts : List Lexem) : Except PErr (Option Expr) × Rest ts :=
   match ts with
   | .where_ :: r =>
     match parseExpr true r with
-    | (.ok e, r2) => (.ok (some e), r2.lift (by simp))
-    | (.error e, r2) => (.error e, r2.lift (by simp))
+    | ⟨.ok e, r2, h2, _⟩ => (.ok (some e), ⟨r2, by lenomega⟩)
+    | ⟨.error e, r2, h2, _⟩ => (.error e, ⟨r2, by lenomega⟩)
   | ts => (.ok none, Rest.refl ts)
 
 def groupStep (acc : List Expr) : (ts : List Lexem) → Step (List Expr) (List Expr) ts
   | .comma :: r => .more acc r (by simp)
   | .raw s :: r =>
     match parseExpr false (.raw s :: r) with
-    | (.ok e, ⟨r2, _⟩) =>
-      if h : r2.length < (Lexem.raw s :: r).length then .more (acc ++ [e]) r2 h
-      else .done (.error (.hang "parse_group_by")) (Rest.refl _)
-    | (.error (.msg _), _) => .done (.error (.panic "parser.rs parse_group_by: parse_expr().unwrap()")) (Rest.refl _)
-    | (.error e, _) => .done (.error e) (Rest.refl _)
+    | ⟨.ok e, r2, _, hp⟩ => .more (acc ++ [e]) r2 (hp rfl (by simp))
+    | ⟨.error e, r2, h2, _⟩ => .done (.error e) ⟨r2, h2⟩
   | ts => .done (.ok acc) (Rest.refl ts)
 
 /-- `parse_group_by` -/
@@ -227,22 +226,19 @@ def orderStep (fields : List Expr) (st : List Expr × List Bool) :
     (ts : List Lexem) → Step (List Expr × List Bool) (List Expr × List Bool) ts
   | .comma :: r => .more st r (by simp)
   | .desc :: r =>
-    if st.2.isEmpty then .done (.error (.panic "parser.rs parse_order_by: order_by_directions[cnt - 1]")) (Rest.refl _)
+    if st.2.isEmpty then .done (.error (.msg "Error parsing ORDER BY, DESC without a field")) ⟨r, by simp⟩
     else .more (st.1, setLastFalse st.2) r (by simp)
   | .raw s :: r =>
     match parseUsize? s with
     | some idx =>
-      if idx == 0 then .done (.error (.panic "parser.rs parse_order_by: fields[idx - 1] (idx = 0)")) (Rest.refl _)
+      if idx == 0 then .done (.error (.msg "Error parsing ORDER BY, position is out of range")) ⟨r, by simp⟩
       else match fields[idx - 1]? with
-        | none => .done (.error (.panic "parser.rs parse_order_by: fields[idx - 1] out of range")) (Rest.refl _)
+        | none => .done (.error (.msg "Error parsing ORDER BY, position is out of range")) ⟨r, by simp⟩
         | some f => .more (st.1 ++ [f], st.2 ++ [true]) r (by simp)
     | none =>
       match parseExpr false (.raw s :: r) with
-      | (.ok e, ⟨r2, _⟩) =>
-        if h : r2.length < (Lexem.raw s :: r).length then .more (st.1 ++ [e], st.2 ++ [true]) r2 h
-        else .done (.error (.hang "parse_order_by")) (Rest.refl _)
-      | (.error (.msg _), _) => .done (.error (.panic "parser.rs parse_order_by: parse_expr().unwrap()")) (Rest.refl _)
-      | (.error e, _) => .done (.error e) (Rest.refl _)
+      | ⟨.ok e, r2, _, hp⟩ => .more (st.1 ++ [e], st.2 ++ [true]) r2 (hp rfl (by simp))
+      | ⟨.error e, r2, h2, _⟩ => .done (.error e) ⟨r2, h2⟩
   | ts => .done (.ok st) (Rest.refl ts)
 
 /-- `parse_order_by` -/
@@ -296,7 +292,7 @@ def parseTokens (ts0 : List Lexem) : Except PErr Query :=
   | (.error e, _) => .error e
   | (.ok roots1, ⟨t2, _⟩) =>
   match parseRootOptions t2 with
-  | (rootOpts, ⟨t3, _⟩) =>
+  | ⟨rootOpts, t3, _, _⟩ =>
   match parseWhere t3 with
   | (.error e, _) => .error e
   | (.ok expr, ⟨t4, _⟩) =>
